@@ -53,6 +53,17 @@ func main() {
 			os.Exit(1)
 		}
 		props.DebugWrites(prog, os.Args[2])
+	case "tight":
+		prog, err := core.Load(core.RepoDir(), "")
+		if err != nil {
+			fmt.Println(err)
+			os.Exit(1)
+		}
+		f := ""
+		if len(os.Args) > 2 {
+			f = os.Args[2]
+		}
+		props.DebugTight(prog, f)
 	case "dnf":
 		prog, err := core.Load(core.RepoDir(), "")
 		if err != nil {
